@@ -5,7 +5,7 @@ import sqlgen as G
 import sqlcheck as S
 
 T14 = {"t1": [("id", G.INT), ("a", G.INT), ("b", G.INT), ("c", G.STR)]}
-FEAT14 = dict(S.ENVELOPE, subq=(), mod="const", strcat=True, like=True, case=True, neg=True, const_pred=False)
+FEAT14 = dict(S.ENVELOPE, subq=(), mod="const", strcat=True, like=True, case=True, neg=True, const_pred=False, udf=False)
 
 
 def expr_cases(seed, n):
